@@ -53,7 +53,7 @@ pub fn lease_port() -> Result<PortLease, String> {
 pub struct Tracker {
     pub port: u16,
     pub thread: Option<JoinHandle<anyhow::Result<()>>>,
-    _lease: PortLease,
+    pub _lease: PortLease,
 }
 
 impl Tracker {
